@@ -1616,8 +1616,16 @@ impl Ref {
             }
             Stmt::Dim(ls) => {
                 for l in ls {
-                    let subs = self.subscripts(l)?;
                     let name = l.var.text();
+                    let subs = match self.subscripts(l) {
+                        Ok(s) => s,
+                        Err(e) => {
+                            if self.dims.contains_key(&name) {
+                                self.grey("DIM of an existing array with an unusable bound: which error is reported is not settled");
+                            }
+                            return Err(e);
+                        }
+                    };
                     if self.dims.contains_key(&name) {
                         return Err("REDIMENSIONED ARRAY");
                     }
